@@ -56,6 +56,9 @@ TRUSTED = [
     "not enumerated (C05 enumerates them for a single mailbox)",
 ]
 ASSUMPTIONS = [
+    "mailbox timeout 45-60 s: every data type has its own id field, so numba specialises the jitted kernels of strax per "
+    "structured dtype and the first use of a new combination in a worker process compiles for several seconds (tens of "
+    "seconds on a loaded machine); a shorter timeout turns those compilations into mailbox timeouts",
     "max_messages is raised above the lag of the graph whenever a data type has two readers whose results meet again downstream "
     "(reconvergent path: exhaust / overlap-window plugins and the alignment of differently chunked streams make the upstream "
     "reader run ahead; capacity deadlocks are C06 / D10); otherwise max_messages is sampled from 2..6",
@@ -979,7 +982,7 @@ def gen_case(rng, quick=True, force=None):
         if force.get("exh") and not is_prep and rng.random() < 0.6:
             proc = "single_thread"
         cfg = dict(proc=proc, workers=rng.choice([None, 1, 2, 4]), lazy=rng.random() < 0.5, mm=rng.randint(2, 6),
-                   rechunk=rng.random() < 0.7, timeout=rng.choice([20, 25, 30]))
+                   rechunk=rng.random() < 0.7, timeout=rng.choice([45, 60]))
         return cfg
     case = dict(srcs=srcs, nodes=nodes, kinds=kinds, span=[t0, t1], target=target, stored=stored,
                 cfg=config(False), prep_cfg=config(True), mode="array" if rng.random() < 0.2 else "iter")
